@@ -271,6 +271,10 @@ def _run(case: dict, env: core.Env, fs: Any, r: random.Random) -> None:
                 marker_n[0] += 1
                 marker = f"m{marker_n[0]}"
                 sql = f"INSERT INTO {nsql} (ID, M) VALUES ({marker_n[0]}, '{marker}')"
+                if not merge and '"' not in nsql and r.random() < 0.2:
+                    # the same name handed over as text
+                    sql = f"INSERT INTO IDENTIFIER('{nsql}') (ID, M) VALUES ({marker_n[0]}, '{marker}')"
+                    env.count("identifier_targets")
                 if merge:
                     sql = (f"MERGE INTO {nsql} t USING (SELECT {marker_n[0]} AS ID, '{marker}' AS M) s ON t.ID = s.ID "
                            "WHEN NOT MATCHED THEN INSERT (ID, M) VALUES (s.ID, s.M)")
